@@ -592,6 +592,39 @@ def check_collation(n, res):
                         break
 
 
+def check_collation_wide(res):
+    """a 12-mode register (two-digit mode indices): homodyne outcomes of modes tagged by their displacement, measured in
+    every order of a few subsets; columns of Result.samples must be in ascending NUMERIC mode order"""
+    n = 12
+    for subset in [(2, 10, 11), (9, 10), (1, 2, 10, 11), (0, 11)]:
+        for modes in itertools.permutations(subset):
+            res.n += 1
+            case = {"collation_wide": True, "modes": list(modes)}
+            prog = sf.Program(n)
+            with prog.context as q:
+                for i in range(n):
+                    ops.Coherent(0.05 * (i + 1)) | q[i]
+                for m in modes:
+                    ops.MeasureX | q[m]
+            try:
+                with warnings.catch_warnings():
+                    warnings.simplefilter("ignore")
+                    with Chooser((), default_menu):
+                        r = sf.Engine("gaussian").run(prog)
+            except Exception as e:  # noqa: BLE001
+                res.violation(f"C06|samples|raises|{type(e).__name__}|wide-register", f"modes {list(modes)} of a 12-mode register measured one by one: run raised {e!r}", case)
+                continue
+            S = np.round(np.array(r.samples, dtype=float), 6)
+            exp = [[round(0.1 * (m + 1), 6) for m in sorted(modes)]]
+            if S.shape != (1, len(modes)) or np.max(np.abs(S - np.array(exp))) > 1e-6:
+                res.violation("C06|samples|column-order|wide-register", f"modes {list(modes)} of a 12-mode register (mode i answers 0.1 (i+1)) measured one by one: samples = {S.tolist()}, expected columns in ascending mode order {exp}", case)
+                continue
+            for m in modes:
+                if abs(float(np.ravel(r.samples_dict[m])[0]) - 0.1 * (m + 1)) > 1e-6:
+                    res.violation("C06|samples_dict|routing|wide-register", f"samples_dict[{m}] = {r.samples_dict[m]}", case)
+                    break
+
+
 # ----------------------------------------------------------------------------- driver
 def work(task):
     what, kind, n, hists = task
@@ -675,6 +708,7 @@ def run(ctx):
         ctx.cap_hit(f"{ctx.stats['unrecognised_sampling_structure']} measurements did not draw from numpy.random in the expected way (one draw per measurement): their Born-distribution oracle was not applied")
     r = Res()
     check_collation(3, r)
+    check_collation_wide(r)
     ctx.add(r)
     ctx.add(check_hbar_outcomes(Res()))
     ctx.add(check_select_refusals(Res()))
@@ -702,6 +736,9 @@ def replay(case):
         from mc.checks import c06c
 
         return c06c.replay(case)
+    if case.get("collation_wide"):
+        check_collation_wide(res)
+        return [(s, w) for s, w, c in res.viol if c["modes"] == case["modes"]]
     if case.get("collation"):
         check_collation(case["n"], res)
         return [(s, w) for s, w, c in res.viol if c["modes"] == case["modes"] and c["split"] == case["split"]]
